@@ -274,6 +274,14 @@ func c04Scan(model gm.G, g geom.Geometry, lib, mixed []byte, cx *h.Ctx) *h.Failu
 	if err := ng.Scan(nil); err != nil || ng.Valid {
 		return h.Failf("wkb/nullscan-nil", "NullGeometry.Scan(nil): err=%v valid=%v", err, ng.Valid)
 	}
+	// a NULL row after a non-NULL row in the same destination: nothing of the previous row is left (as with sql.NullString)
+	ng2 := geom.NullGeometry{}
+	if err := ng2.Scan(lib); err != nil || !ng2.Valid {
+		return h.Failf("wkb/nullscan-error", "NullGeometry.Scan fails on %s: %v", model, err)
+	}
+	if err := ng2.Scan(nil); err != nil || ng2.Valid || !ng2.Geometry.IsEmpty() || ng2.Geometry.Type() != geom.TypeGeometryCollection {
+		return h.Failf("wkb/nullscan-nil-keeps-previous", "NullGeometry.Scan(nil) after a non-NULL row: err=%v valid=%v geometry=%s (want the zero Geometry)", err, ng2.Valid, ng2.Geometry.AsText())
+	}
 	if v, err := (geom.NullGeometry{}).Value(); v != nil || err != nil {
 		return h.Failf("wkb/nullvalue-nil", "NullGeometry{}.Value() = %v, %v", v, err)
 	}
@@ -388,7 +396,18 @@ func c04Enumerate(cx *h.Ctx, yield func(C04Case)) []string {
 			yield(C04Case{G: g, Orders: []bool{false, true}, Valid: true})
 		}
 	}
-	return []string{"collections of 100, 101, 150 and 1000 members (MultiPoint, MultiLineString, GeometryCollection, nested sums past 100)"}
+	// polygons with hundreds of rings (decoded with NoValidate: the rings are tiny triangles on a diagonal), alone
+	// and as a member
+	for _, n := range []int{255, 256, 257, 300, 1000} {
+		poly := gm.G{T: gm.Polygon}
+		for i := 0; i < n; i++ {
+			x := float64(3 * i)
+			poly.Rings = append(poly.Rings, gm.Fs(x, x, x+1, x, x, x+1, x, x))
+		}
+		yield(C04Case{G: poly, Orders: []bool{true, false, false}})
+		yield(C04Case{G: gm.G{T: gm.MultiPolygon, Mem: []gm.G{{T: gm.Polygon, Rings: [][]gm.F{gm.Fs(-9, -9, -8, -9, -8, -8, -9, -9)}}, poly}}, Orders: []bool{false}})
+	}
+	return []string{"collections of 100, 101, 150 and 1000 members (MultiPoint, MultiLineString, GeometryCollection, nested sums past 100)", "polygons with 255..1000 rings, alone and as a MultiPolygon member"}
 }
 
 var _ = fmt.Sprintf
